@@ -2,9 +2,11 @@ package main
 
 import (
 	"fmt"
+	"os"
 	"sort"
 	"strings"
 	"sync/atomic"
+	"time"
 
 	"verifharness/ref/hpackx"
 	"verifharness/vkit"
@@ -83,14 +85,20 @@ func c30bObserve(site string, prefix uint8, v uint64) {
 
 // ---------------------------------------------------------------- strings
 
-var c30bShort, c30bLong []byte // octets whose Huffman code has <= 7 bits / >= 8 bits
+var c30bShort, c30bLong, c30bFive []byte // octets whose Huffman code has <= 7 bits / >= 8 bits / exactly 5 bits
+var c30bBits [256]int
 
 func init() {
 	for c := 0; c < 256; c++ {
-		if _, n := hpackx.HuffCodeOf(c); n <= 7 {
+		_, n := hpackx.HuffCodeOf(c)
+		c30bBits[c] = int(n)
+		if n <= 7 {
 			c30bShort = append(c30bShort, byte(c))
 		} else {
 			c30bLong = append(c30bLong, byte(c))
+		}
+		if n == 5 {
+			c30bFive = append(c30bFive, byte(c))
 		}
 	}
 }
@@ -119,12 +127,7 @@ func c30bHuff(g *vkit.Rand, L int) string {
 	if L <= 0 {
 		return ""
 	}
-	five := make([]byte, 0, 16)
-	for _, c := range c30bShort {
-		if _, n := hpackx.HuffCodeOf(int(c)); n == 5 {
-			five = append(five, c)
-		}
-	}
+	five := c30bFive
 	bits, limit := 0, 8*L
 	var sb strings.Builder
 	if L > 4096 {
@@ -136,8 +139,8 @@ func c30bHuff(g *vkit.Rand, L int) string {
 	}
 	for {
 		c := c30bShort[g.Intn(len(c30bShort))]
-		_, n := hpackx.HuffCodeOf(int(c))
-		if bits+int(n) > limit {
+		n := c30bBits[c]
+		if bits+n > limit {
 			c = five[g.Intn(len(five))]
 			n = 5
 			if bits+5 > limit {
@@ -145,7 +148,7 @@ func c30bHuff(g *vkit.Rand, L int) string {
 			}
 		}
 		sb.WriteByte(c)
-		bits += int(n)
+		bits += n
 	}
 	return sb.String() // limit-5 < bits <= limit: ceil(bits/8) == L
 }
@@ -159,9 +162,15 @@ func c30bStr(g *vkit.Rand, L int, huff bool) string {
 
 // ---------------------------------------------------------------- case builders
 
+// c30bCase is one directed history, generated inside the worker that runs it.
 type c30bCase struct {
-	fam string
-	c   *c30Case
+	fam    string
+	weight int // rough cost, only for scheduling (heavy first)
+	gen    func() *c30Case
+}
+
+func c30bFixed(fam string, c *c30Case) c30bCase {
+	return c30bCase{fam, 0, func() *c30Case { return c }}
 }
 
 func c30bBlock(fs ...c30F) c30Op { return c30Op{Kind: "block", Fields: fs} }
@@ -191,9 +200,19 @@ func c30bStringCases(r *vkit.Run, fam string, name, huff bool, lens []int, per i
 		if hi > len(lens) {
 			hi = len(lens)
 		}
-		g := r.Rng("c30b-"+fam, lens[lo], lens[hi-1], len(lens))
+		part, w := lens[lo:hi], 0
+		for _, L := range part {
+			w += L
+		}
+		*out = append(*out, c30bCase{fam, w, func() *c30Case { return c30bStringCase(r, fam, name, huff, part, len(lens)) }})
+	}
+}
+
+func c30bStringCase(r *vkit.Run, fam string, name, huff bool, part []int, total int) *c30Case {
+	{
+		g := r.Rng("c30b-"+fam, part[0], part[len(part)-1], total)
 		c := &c30Case{}
-		for k, L := range lens[lo:hi] {
+		for k, L := range part {
 			s := c30bStr(g, L, huff)
 			var f c30F
 			if name {
@@ -208,7 +227,7 @@ func c30bStringCases(r *vkit.Run, fam string, name, huff bool, lens []int, per i
 			}
 			c.Ops = append(c.Ops, op)
 		}
-		*out = append(*out, c30bCase{fam, c})
+		return c
 	}
 }
 
@@ -241,7 +260,7 @@ func c30bSizeCases(r *vkit.Run, fam string, vals []uint32, per int, out *[]c30bC
 			}
 			c.Ops = append(c.Ops, op)
 		}
-		*out = append(*out, c30bCase{fam, c})
+		*out = append(*out, c30bFixed(fam, c))
 	}
 }
 
@@ -263,7 +282,7 @@ func c30bSizePairs(fam string, vals []uint32, out *[]c30bCase) {
 			c30Op{Kind: "announce", V: a}, c30Op{Kind: "announce", V: b},
 			c30bBlock(c30F{N: "x-post", V: "2"}, c30F{N: "x-pre", V: "1"}),
 			c30bBlock(c30F{N: "x-post", V: "2"}))
-		*out = append(*out, c30bCase{fam, c})
+		*out = append(*out, c30bFixed(fam, c))
 	}
 }
 
@@ -501,7 +520,11 @@ func c30bCases(r *vkit.Run) []c30bCase {
 		var big, small []int
 		for _, L := range c30bBoundary(7, 1<<40) {
 			if L > 100000 {
-				for _, x := range []int{L - 1, L, L + 1} {
+				near := []int{L}
+				if !r.Quick() {
+					near = []int{L - 1, L, L + 1}
+				}
+				for _, x := range near {
 					if len(big) == 0 || big[len(big)-1] < x {
 						big = append(big, x)
 					}
@@ -537,13 +560,17 @@ func c30bCases(r *vkit.Run) []c30bCase {
 	c30bSizePairs("size-boundary:min-then-final", sb, &out)
 	// indices: every dynamic position 1..idxHi, the static table, one 16.5k-entry table
 	for p := 1; p <= pl.idxHi; p++ {
-		g := r.Rng("c30b-index", p)
-		out = append(out, c30bCase{"index-sweep", c30bIndexCase(g, p, 1+g.Intn(p), pl.idxT)})
+		p := p
+		out = append(out, c30bCase{"index-sweep", 8 * p * p, func() *c30Case {
+			g := r.Rng("c30b-index", p)
+			return c30bIndexCase(g, p, 1+g.Intn(p), pl.idxT)
+		}})
 	}
-	out = append(out, c30bCase{"index-static", c30bStaticCase()})
-	out = append(out, c30bCase{"index-16k-table", c30bBigTable(r.Rng("c30b-big"))})
+	out = append(out, c30bFixed("index-static", c30bStaticCase()))
+	out = append(out, c30bCase{"index-16k-table", 1 << 40, func() *c30Case { return c30bBigTable(r.Rng("c30b-big")) }})
 	for i := 0; i < pl.mix; i++ {
-		out = append(out, c30bCase{"mix", c30bMix(r, i)})
+		i := i
+		out = append(out, c30bCase{"mix", 20000, func() *c30Case { return c30bMix(r, i) }})
 	}
 	return out
 }
@@ -563,7 +590,7 @@ func c30bKey(c *c30Case) uint64 {
 
 // c30bCheck runs one directed history through the unchanged oracle.
 func c30bCheck(r *vkit.Run, bc c30bCase) {
-	c := bc.c
+	c := bc.gen()
 	multi := int64(0)
 	obs := func(site string, prefix uint8, v uint64) {
 		if v >= uint64(1)<<prefix-1 {
@@ -572,6 +599,15 @@ func c30bCheck(r *vkit.Run, bc c30bCase) {
 		c30bObserve(site, prefix, v)
 	}
 	c30C.add("directed_cases:"+bc.fam, 1)
+	tStart := time.Now()
+	defer func() {
+		if os.Getenv("C30B_PROF") != "" {
+			c30C.add("prof_ms:"+bc.fam, time.Since(tStart).Milliseconds())
+			if d := time.Since(tStart); d > 500*time.Millisecond {
+				fmt.Fprintf(os.Stderr, "c30b: %s took %v\n", bc.fam, d)
+			}
+		}
+	}()
 	if r.Try(func() interface{} { return c }, func() { c30Run(r, c, "bfe", obs) }) {
 		return
 	}
@@ -689,22 +725,15 @@ func c30bFinish(r *vkit.Run, replay bool) {
 	}
 }
 
-const c30bRule = " BOUNDARY-DIRECTED PART (c30b.go; same oracle, same three observers): every integer bfe's encoder writes - indexed field (7-bit prefix), name index of a literal with incremental indexing (6) / without indexing (4; not sensitive, entry larger than the table) / never indexed (4; sensitive), dynamic table size update (5), length of a new name and of a value sent raw or Huffman coded (7; Huffman strings are built so that their ENCODED length is the target and is strictly shorter than the string, raw strings from octets with >= 8-bit codes) - is forced to 2^N-1+{-1,0,1,127,128,129,255,256,16383,16384,16385,2097151,2097152} and swept: every string length 0..600 and 16000..17000 (thorough 0..4200, 15800..17200) x {name,value} x {raw,Huffman}; every table size update 0..4096 (thorough 0..20000) ascending, descending and in seeded order, 16300..16500, the boundary sizes up to 2 MiB+31 singly and as minimum-then-final pairs (SETTINGS_HEADER_TABLE_SIZE and the encoder's limit raised accordingly); every dynamic-table position 1..400 (thorough 1..1100; table of uniform 37-octet entries with unique names, SETTINGS 16384/65536) referenced as indexed field, never-indexed name, without-indexing name (value longer than the table) and incremental-indexing name, plus a second seeded position; all 61 static entries the same four ways; one table of 16520 entries for the 16383..16385 deltas of the index sites; 400 (thorough 12000) seeded histories mixing these steps in one context. Not generated: index values 2^N-1+2097151.. (2 million table entries, bfe's encoder searches linearly) and name index 14 (':status' is always named by entry 8). What was written is OBSERVED: the RFC model reports each integer parsed from bfe's emitted stream; the run is inconclusive if a required boundary value or any value of a sweep never appeared. Directed history non-trivial = bfe's stream carried >= 1 integer of >= 2 octets."
+const c30bRule = " BOUNDARY-DIRECTED PART (c30b.go; same oracle, same three observers): every integer bfe's encoder writes - indexed field (7-bit prefix), name index of a literal with incremental indexing (6) / without indexing (4; not sensitive, entry larger than the table) / never indexed (4; sensitive), dynamic table size update (5), length of a new name and of a value sent raw or Huffman coded (7; Huffman strings are built so that their ENCODED length is the target and is strictly shorter than the string, raw strings from octets with >= 8-bit codes) - is forced to 2^N-1+{-1,0,1,127,128,129,255,256,16383,16384,16385,2097151,2097152} and swept: every string length 0..600 and 16000..17000 (thorough 0..4200, 15800..17200) x {name,value} x {raw,Huffman}; every table size update 0..4096 (thorough 0..20000) ascending, descending and in seeded order, 16300..16500, the boundary string lengths up to 2 MiB+127 (thorough also +-1 around the 2 MiB ones); the boundary sizes up to 2 MiB+31 singly and as minimum-then-final pairs (SETTINGS_HEADER_TABLE_SIZE and the encoder's limit raised accordingly); every dynamic-table position 1..400 (thorough 1..1100; table of uniform 37-octet entries with unique names, SETTINGS 16384/65536) referenced as indexed field, never-indexed name, without-indexing name (value longer than the table) and incremental-indexing name, plus a second seeded position; all 61 static entries the same four ways; one table of 16520 entries for the 16383..16385 deltas of the index sites; 400 (thorough 12000) seeded histories mixing these steps in one context. Not generated: index values 2^N-1+2097151.. (2 million table entries, bfe's encoder searches linearly) and name index 14 (':status' is always named by entry 8). What was written is OBSERVED: the RFC model reports each integer parsed from bfe's emitted stream; the run is inconclusive if a required boundary value or any value of a sweep never appeared. Directed history non-trivial = bfe's stream carried >= 1 integer of >= 2 octets."
 
 func c30b(r *vkit.Run) {
+	t0 := time.Now()
 	cases := c30bCases(r)
-	// big cases first so that they overlap with the many small ones
-	sort.SliceStable(cases, func(i, j int) bool { return c30bWeight(cases[i].c) > c30bWeight(cases[j].c) })
-	vkit.Parallel(len(cases), 0, func(i int) { c30bCheck(r, cases[i]) })
-}
-
-func c30bWeight(c *c30Case) int {
-	n := 0
-	for _, op := range c.Ops {
-		n += 40 * len(op.Fields) * len(op.Fields) / 64 // table search is linear in the entries
-		for _, f := range op.Fields {
-			n += len(f.N) + len(f.V)
-		}
+	if os.Getenv("C30B_PROF") != "" {
+		fmt.Fprintf(os.Stderr, "c30b: %d cases generated in %v\n", len(cases), time.Since(t0))
 	}
-	return n
+	// big cases first so that they overlap with the many small ones
+	sort.SliceStable(cases, func(i, j int) bool { return cases[i].weight > cases[j].weight })
+	vkit.Parallel(len(cases), 0, func(i int) { c30bCheck(r, cases[i]) })
 }
